@@ -1061,9 +1061,8 @@ theorem restart_dropped_metrics_port_before_fix :
     (interp evmDisplay installTable (through (viaLiteral oldRetainLiteral) restartWitnessEntry)).all
       (fun it => it.flag != some "metrics-server-port") = true ∧
     (buildUpgrade restartWitnessEntry).any (fun it => it.flag == some "metrics-server-port" && it.value == .one "13001") = true ∧
-    (buildRestartRetain restartWitnessEntry).any (fun it => it.flag == some "metrics-server-port" && it.value == .one "13001") = true ∧
-    evalSrc restartWitnessEntry (.const "false") ≠ (upgradeLevels restartWitnessEntry).2 := by
-  refine ⟨by unfold ListenPortRecorded; decide, by decide, by decide, by decide, by decide⟩
+    evalSrc restartWitnessEntry (.const "false") ≠ restartWitnessEntry ["user_mode"] := by
+  refine ⟨by unfold ListenPortRecorded; decide, by decide, by decide, by decide⟩
 
 /-! ### The replacement service (`retain_peer_id = false`) -/
 
@@ -1209,6 +1208,13 @@ theorem upgrade_environment_kept_partial (σ : Valuation) (prev env : Option ASt
 
 /-! ## The unit file: what systemd makes of the definition (audit C20-1, known finding K-t-unit-unquoted) -/
 open SafeNet.UnitFile
+
+/-- The two format strings of the locked `service-manager` crate's systemd backend are the ones
+`execStartValue` / `environmentLine` implement (read from the registry source by the translator; the rendered
+text itself is compared with the crate's own output on every record by component `upgrade`). -/
+theorem unit_formats_as_modelled :
+    unitExecStartFormat = "ExecStart={program} {args}" ∧ unitArgsSeparator = " " ∧
+    unitEnvironmentFormat = "Environment=\"{var}={val}\"" := by decide
 
 /-- `ServiceInstallCtx.program` as the unit file shows it (`to_string_lossy`) -/
 def programOf (settings : List (String × Val)) : String :=
@@ -1432,6 +1438,7 @@ theorem unit_owner_accepted_and_misread :
 #print axioms SafeNet.Props.C20.user_bootstrap_cache_dir_was_overwritten
 #print axioms SafeNet.Props.C20.later_add_rewrites_earlier_environment
 #print axioms SafeNet.Props.C20.upgrade_environment_kept_partial
+#print axioms SafeNet.Props.C20.unit_formats_as_modelled
 #print axioms SafeNet.Props.C20.rendered_unit_interpreted_as_intended
 #print axioms SafeNet.Props.C20.rendered_environment_read_back
 #print axioms SafeNet.Props.C20.unit_safe_of_user_strings
